@@ -18,6 +18,8 @@ import (
 	"github.com/buchgr/bazel-remote/v2/cache"
 )
 
+var vLostUploads int
+
 func TestVerifGrpcProxyRoundTrip(t *testing.T) {
 	rec := vNewRecorder(t, "grpcproxy")
 	defer rec.Close(t)
@@ -44,7 +46,12 @@ func TestVerifGrpcProxyRoundTrip(t *testing.T) {
 		hash := hex.EncodeToString(sum[:])
 		p.proxy.Put(ctx, cache.CAS, hash, int64(n), int64(n), io.NopCloser(bytes.NewReader(data)))
 		arrived := false
-		for i := 0; i < 300; i++ {
+		// asynchronous upload: patient on a loaded machine (30 s), short once two uploads were lost for good
+		wait := 3000
+		if vLostUploads >= 2 {
+			wait = 300
+		}
+		for i := 0; i < wait; i++ {
 			if b, err := os.ReadFile(filepath.Join(dir, cache.CAS.DirName(), hash)); err == nil && len(b) == n {
 				arrived = true
 				break
@@ -55,6 +62,7 @@ func TestVerifGrpcProxyRoundTrip(t *testing.T) {
 		rec.Count(fmt.Sprintf("arrived=%v", arrived))
 		rec.Distinct(fmt.Sprint(n))
 		if !arrived {
+			vLostUploads++
 			rec.Violation("C12", "grpcproxy.upload-lost", fmt.Sprintf("a %d-byte blob handed to the gRPC proxy client never reached the back end (upload chunk size %d)", n, maxChunkSize), map[string]int{"size": n})
 			continue
 		}
